@@ -76,7 +76,7 @@ func driveSchnorr(c *ctx) {
 	for _, v := range []*big.Int{big.NewInt(0), big.NewInt(1), add(bigP, -1), bigP, add(bigP, 1), add(big2_256, -1)} {
 		newPub(be32(v)[:])
 	}
-	for _, p := range curvePointsWithSmallX(rng, 3) {
+	for _, p := range curvePointsWithSmallX(rng, 10) {
 		newPub(be32(p.x)[:])
 		newPub(be32(new(big.Int).Add(p.x, bigP))[:])
 	}
